@@ -163,7 +163,6 @@ func (fs *FileStorage) GetMessages(offset uint64) ([]storage.Message, error) {
 		msgs []storage.Message
 		err  error
 		row  []byte
-		data storage.Message
 	)
 	fs.mu.Lock()
 	defer fs.mu.Unlock()
@@ -184,6 +183,8 @@ func (fs *FileStorage) GetMessages(offset uint64) ([]storage.Message, error) {
 		// a line that is no message (torn by a writer that died, or not written by Send at all) keeps its
 		// position and is passed over: failing here would end the Poll loop of every participant for good
 		row = scanner.Bytes()
+		// a fresh value per line: a line that leaves fields out must not inherit them from the line before
+		var data storage.Message
 		if err = json.Unmarshal(row, &data); err != nil {
 			continue
 		}
